@@ -51,7 +51,9 @@ def prime_specials():
     """operators whose right operand is 0 only after reduction modulo the prime (and neighbours)"""
     out = []
     for name, p in PRIMES.items():
-        for k in (p, 2 * p, p - 1, p + 1, 3 * p):
+        # ... and the boundaries of the shift rules (seeded C01 m5: `>>` by exactly (p - 1) / 2 bounced between shift_r and shift_l for ever)
+        bl = p.bit_length()
+        for k in (p, 2 * p, p - 1, p + 1, 3 * p, p // 2, p // 2 + 1, p // 2 - 1, bl, bl - 1, bl + 1, p - bl, p - bl + 1):
             body = " ".join("var v%d = 7 %s %d;" % (i, op, k) for i, op in enumerate(["\\", "%", "/", "<<", ">>", "**", "*", "+", "-", "&", "|", "^", "<", "=="]))
             out.append((name, "pragma circom 2.0.0;\nfunction f() { %s var w = ~%d; var z = -%d; var b = !%d; return v0; }\n" % (body, k, k, k)))
             out.append((name, "pragma circom 2.0.0;\ntemplate T() { signal input a; signal output o; o <-- a \\ %d; o === a %% %d; log(a / %d, a << %d); }\n" % (k, k, k, k)))
